@@ -4,6 +4,7 @@ import (
 	"fmt"
 	"go/constant"
 	"go/types"
+	"morlockverif/checker/internal/core"
 	"sort"
 	"strings"
 
@@ -70,7 +71,7 @@ type fenPath struct {
 
 func analyseFenLoop(c *Ctx, in *absint.Interp) *fenLoop {
 	fl := &fenLoop{}
-	fl.decode = c.P.Func("pkg/board/fen", "", "Decode")
+	fl.decode = c.find("pkg/board/fen", "", "Decode")
 	if fl.decode == nil {
 		fl.problem = "fen.Decode not found"
 		return fl
@@ -81,7 +82,7 @@ func analyseFenLoop(c *Ctx, in *absint.Interp) *fenLoop {
 		for _, b := range fl.decode.Blocks {
 			for _, ins := range b.Instrs {
 				if phi, ok := ins.(*ssa.Phi); ok {
-					if n := namedOf(phi.Type()); n != nil && n.Obj().Name() == "Square" {
+					if n := namedOf(phi.Type()); n != nil && core.ObjName(n.Obj()) == "Square" {
 						for _, p := range b.Preds {
 							if b.Dominates(p) {
 								fl.sqPhi = phi
@@ -132,7 +133,7 @@ func analyseFenLoop(c *Ctx, in *absint.Interp) *fenLoop {
 		fp.newSq = nv
 		// a placement literal built on this path?
 		for cell, v := range o.St.Mem {
-			if s, ok := v.(*absint.Struct); ok && namedOf(cell.T) != nil && namedOf(cell.T).Obj().Name() == "Placement" && strings.HasPrefix(cell.Name, "complit") {
+			if s, ok := v.(*absint.Struct); ok && namedOf(cell.T) != nil && core.ObjName(namedOf(cell.T).Obj()) == "Placement" && strings.HasPrefix(cell.Name, "complit") {
 				fp.placement = s
 			}
 		}
